@@ -1,6 +1,9 @@
 from . import expr_container as e
-from .indices import minimize_tensor_indices, Index
-from sympy import Rational, diff, S
+from .indices import (minimize_tensor_indices, Index,
+                      get_lowest_avail_indices, get_symbols)
+from .sympy_objects import (AntiSymmetricTensor, Amplitude,
+                            NonSymmetricTensor, KroneckerDelta)
+from sympy import Rational, diff, S, Pow
 
 
 def derivative(expr: e.Expr, t_string: str):
@@ -54,8 +57,19 @@ def derivative(expr: e.Expr, t_string: str):
             for other_i, other_obj in enumerate(tensor_obj):
                 if i != other_i:
                     deriv_contrib *= other_obj
+            # - target indices and repeated indices on the tensor:
+            #   The derivative is requested for an arbitrary element of the
+            #   tensor block. Therefore, replace the indices by new indices
+            #   and introduce a KroneckerDelta for each replaced index:
+            #   f_ii -> delta_ij f_ij
+            obj, deltas = _lift_target_and_repeated_idx(
+                obj, term, target_names_by_space
+            )
+            deriv_contrib *= deltas
             # - minimize the indices of the removed tensor
-            _, perms = minimize_tensor_indices(obj.idx, target_names_by_space)
+            _, perms = minimize_tensor_indices(
+                obj.terms[0].tensors[0].idx, target_names_by_space
+            )
             # - apply the permutations to the remaining term
             deriv_contrib = deriv_contrib.permute(*perms)
             if deriv_contrib.sympy is S.Zero:
@@ -99,3 +113,50 @@ def derivative(expr: e.Expr, t_string: str):
                 derivative[key] = e.Expr(0, **assumptions)
             derivative[key] += symmetrized_deriv_contrib
     return derivative
+
+
+def _lift_target_and_repeated_idx(obj: e.Obj, term: e.Term,
+                                  target_names: dict[tuple, set]):
+    """
+    Replaces the target indices and all but the first occurence of repeated
+    indices on the tensor by new, unused indices. Returns the tensor with the
+    new indices (wrapped by an Expr) and the product of KroneckerDeltas that
+    connects the new indices to the replaced indices.
+    """
+    indices = list(obj.idx)
+    # collect the names of all indices that are not available
+    used = {}
+    for s in term.idx:
+        used.setdefault(s.space_and_spin, set()).add(s.name)
+    for idx_key, names in target_names.items():
+        used.setdefault(idx_key, set()).update(names)
+
+    deltas = S.One
+    seen = set()
+    for pos, s in enumerate(indices):
+        idx_key = s.space_and_spin
+        if s.name not in target_names.get(idx_key, []) and s not in seen:
+            seen.add(s)
+            continue
+        name = get_lowest_avail_indices(1, used[idx_key], s.space)[0]
+        used[idx_key].add(name)
+        new_s = get_symbols([name], [s.spin])[0]
+        deltas *= KroneckerDelta(s, new_s)
+        indices[pos] = new_s
+    if deltas is S.One:  # nothing to do
+        return e.Expr(obj.sympy, **obj.assumptions), deltas
+    # build the tensor with the new indices
+    base, exponent = obj.base_and_exponent
+    if isinstance(base, AntiSymmetricTensor):
+        if isinstance(base, Amplitude):  # indices = lower, upper
+            n_l = len(base.lower)
+            upper, lower = indices[n_l:], indices[:n_l]
+        else:  # symtensor / antisymtensor, indices = upper, lower
+            n_u = len(base.upper)
+            upper, lower = indices[:n_u], indices[n_u:]
+        tensor = base.__class__(base.name, upper, lower, base.bra_ket_sym)
+    elif isinstance(base, NonSymmetricTensor):
+        tensor = NonSymmetricTensor(base.name, indices)
+    else:
+        raise TypeError(f"Unknown tensor type {type(base)}.")
+    return e.Expr(Pow(tensor, exponent), **obj.assumptions), deltas
